@@ -270,6 +270,7 @@ async def process_resource_causes(
             memory=memory,
             cause=spawning_cause,
             operator_paused=operator_paused,
+            deleted=raw_event['type'] == 'DELETED',
         )
 
     # If there are any handlers for this resource kind in general, but not for this specific object
@@ -383,6 +384,7 @@ async def process_spawning_cause(
         memory: inventory.ResourceMemory,
         cause: causes.SpawningCause,
         operator_paused: aiotoggles.ToggleSet | None,  # None for tests
+        deleted: bool = False,  # the object is really gone, even if it was never marked for deletion
 ) -> Collection[float]:
     """
     Spawn/kill all the background tasks of a resource.
@@ -404,7 +406,7 @@ async def process_spawning_cause(
     if cause.reset:
         memory.daemons_memory.idle_reset_time = asyncio.get_running_loop().time()
 
-    if finalizers.is_deletion_ongoing(cause.body):
+    if deleted or finalizers.is_deletion_ongoing(cause.body):
         stopping_delays = await daemons.stop_daemons(
             settings=settings,
             daemons=memory.daemons_memory.running_daemons,
